@@ -296,8 +296,8 @@ MUTANTS = [
          new='        exc_info = None'),
     dict(name="data directory not written to _temp first", file="strax/storage/files.py",
          old='        self.tempdirname = dirname + "_temp"', new='        self.tempdirname = dirname'),
-    dict(name="broken-data check skipped", file="strax/storage/common.py",
-         old='            if "writing_ended" not in meta and not allow_incomplete:', new='            if False:'),
+    dict(name="recorded exception ignored when looking for data", file="strax/storage/common.py",
+         old='            if "exception" in meta:', new='            if False:'),
 ]
 
 OBLIGATIONS = [
